@@ -154,7 +154,7 @@ Ltac pev :=
                end in
       eapply good_bind;
       [ eapply (Hev tk c p q);
-        [ unfold tok_in; cbn [fst snd]; try (split; [|exact I]); solve_adv | exact HI ]
+        [ unfold tok_in; cbn [fst snd]; repeat split; try exact I; try assumption; pmeasure | exact HI ]
       | intros; pclean ]
   end.
 
@@ -162,7 +162,7 @@ Ltac pstep := first [ pev | pstep0 ].
 
 Ltac pfin :=
   unfold DefaultTokenizer.ppost, DefaultTokenizer.ppost3 in *; cbn [fst snd] in *;
-  solve [ split; [solve_adv | first [ eassumption | eapply Inv_mono; [|eassumption]; solve_adv ] ]
+  solve [ split; [solve_adv | first [ eassumption | eapply Inv_mono; [|eassumption]; pmeasure ] ]
         | solve_adv
         | eauto with pgood ].
 
@@ -170,10 +170,10 @@ Ltac pauto := repeat pstep; try pfin.
 
 Ltac prec IH :=
   eapply good_weaken;
-  [ eapply IH; [ eauto with pgood | first [eassumption | eapply Inv_mono; [|eassumption]; solve_adv] | pmeasure ]
+  [ eapply IH; [ eauto with pgood | first [eassumption | eapply Inv_mono; [|eassumption]; pmeasure] | pmeasure ]
   | intros; pclean; split; [solve_adv | eassumption] ].
 
-Hint Extern 3 (Inv _ _) => (eapply Inv_mono; [|eassumption]; solve_adv) : pgood.
+Hint Extern 3 (Inv _ _) => (eapply Inv_mono; [|eassumption]; pmeasure) : pgood.
 
 Lemma parse_comment_pos s c : wf s -> Inv (s_pos s) c -> good (ppost 1 s) (parse_comment text C ev s c).
 Proof. intros W HI. unfold parse_comment. pauto. Qed.
@@ -225,7 +225,7 @@ Lemma parse_doctype_pos s c : wf s -> Inv (s_pos s) c -> good (ppost 1 s) (parse
 Proof.
   intros W HI. unfold parse_doctype. pauto.
   eapply good_weaken; [apply parse_doctype_loop_pos; [eauto with pgood| |apply fuel_enough; eauto with pgood]|].
-  - eapply Inv_mono; [|eassumption]. solve_adv.
+  - eapply Inv_mono; [|eassumption]. pmeasure.
   - intros [s' c'] [H1 H2]; gsimp. pfin.
 Qed.
 End Dtd.
@@ -241,7 +241,7 @@ Lemma parse_element_pos s c : wf s -> Inv (s_pos s) c -> good (ppost3 1 s) (pars
 Proof.
   intros W HI. unfold parse_element. pauto.
   eapply good_weaken; [apply parse_element_loop_pos; [eauto with pgood| |apply fuel_enough; eauto with pgood]|].
-  - eapply Inv_mono; [|eassumption]. solve_adv.
+  - eapply Inv_mono; [|eassumption]. pmeasure.
   - intros [[o s'] c'] [H3 H4]; gsimp. pfin.
 Qed.
 Hint Resolve parse_element_pos : pgood.
@@ -289,14 +289,16 @@ Proof.
   assert (Hp0 : s_pos (stream_new text) = 0) by reflexivity.
   assert (He0 : s_end (stream_new text) = tlen text) by reflexivity.
   set (s0 := stream_new text) in *. clearbody s0. rewrite <- Hp0 in HI.
-  assert (Hdt : dtd = true -> forall s c, wf s -> Inv (s_pos s) c ->
-                good (ppost 1 s) (parse_doctype text C ev s c)).
-  { intros Hd. apply parse_doctype_pos. exact (HD Hd). }
-  destruct dtd.
-  - specialize (Hdt eq_refl). pauto.
-    all: try (eapply Inv_mono; [|eassumption]; solve_adv).
-  - clear Hdt. pauto.
-    all: try (eapply Inv_mono; [|eassumption]; solve_adv).
+  eapply good_bind with (Q := adv 0 s0); [pauto|]. intros s1 H1.
+  eapply good_bind with (Q := adv 0 s0); [pauto|]. intros s2 H2.
+  eapply good_bind with (Q := ppost 0 s0); [pauto|]. intros [s3 c3] [H3 I3]; gsimp.
+  pstep.
+  eapply good_bind with (Q := ppost 0 s0).
+  { pstep; [|pauto]. destruct dtd; cbn [negb]; [|exact I].
+    pose proof (parse_doctype_pos (HD eq_refl)) as Hdt. pauto. }
+  intros [s5 c5] [H5 I5]; gsimp. pstep.
+  eapply good_bind with (Q := ppost 0 s0); [pauto|].
+  intros [s7 c7] [H7 I7]; gsimp. pauto.
 Qed.
 
 End PTok.
